@@ -60,6 +60,7 @@ type half struct {
 	cutLeft  int // >0: reset the pair after this many more bytes are accepted
 	cutArmed bool
 	hole     bool // blackhole: accept and never deliver
+	sink     bool // the reader is gone but cannot tell the writer (its direction is blackholed): writes vanish
 	total    int64
 	rdl, wdl time.Time
 }
@@ -202,6 +203,17 @@ func (n *Net) timedFault(f Fault) {
 		for _, h := range dirs {
 			if h.hole {
 				h.hole = false
+				// a close that could not be announced through the hole is
+				// announced now: the closed end's peer sees its writes fail
+				for _, c := range []*Conn{p.C, p.S} {
+					if c.w == h && c.r.sink {
+						c.r.sink = false
+						if c.r.reset == nil {
+							c.r.reset = errors.New("simnet: broken pipe")
+						}
+						wake(c.r.wsig)
+					}
+				}
 				n.E.Fault("heal")
 				now := time.Now()
 				for i := range h.segs {
@@ -414,7 +426,8 @@ func (c *Conn) Read(p []byte) (int, error) {
 				return n, nil
 			}
 			wait = s.at.Sub(now)
-		} else if h.wclosed {
+		} else if h.wclosed && !h.hole {
+			// (a FIN does not cross a blackhole either)
 			return 0, io.EOF
 		}
 		if !h.rdl.IsZero() {
@@ -443,6 +456,13 @@ func (c *Conn) Write(p []byte) (int, error) {
 			return 0, h.reset
 		}
 		return 0, net.ErrClosed
+	}
+	if h.sink {
+		if c.OnWrite != nil && len(p) > 0 {
+			c.OnWrite(p)
+		}
+		h.total += int64(len(p))
+		return len(p), nil
 	}
 	if c.OnWrite != nil && len(p) > 0 {
 		c.OnWrite(p)
@@ -578,9 +598,15 @@ func (c *Conn) Close() error {
 	c.w.wclosed = true
 	c.P.net.E.Logf("net close %s", c.name)
 	close(c.closeCh)
-	// unread inbound data is dropped; the peer's further writes fail
+	// unread inbound data is dropped; the peer's further writes fail - unless
+	// the direction towards the peer is blackholed: then nothing (FIN, RST) can
+	// tell the peer, and its writes keep vanishing until the hole heals
 	if c.r.reset == nil {
-		c.r.reset = errors.New("simnet: broken pipe")
+		if c.w.hole {
+			c.r.sink = true
+		} else {
+			c.r.reset = errors.New("simnet: broken pipe")
+		}
 	}
 	c.r.segs, c.r.qbytes = nil, 0
 	wake(c.r.rsig)
